@@ -2,7 +2,7 @@
 # quick tier of every claimed property under several batch seeds (false-alarm control; used with `vp run`)
 cd "$(dirname "$0")"
 for s in ${SEEDS:-1 2 3 4}; do
-  for p in C05 C06 C07 C08 C09 C10 C11 C12 C13 C14 C15 C16 C19; do
+  for p in ${PROPS:-C05 C06 C07 C08 C09 C10 C11 C12 C13 C14 C15 C16 C19}; do
     VERIF_SEED=$s ./check $p quick > seeds.$p.$s.log 2>&1; rc=$?
     echo "seed=$s $p rc=$rc $(grep -c VIOLATION seeds.$p.$s.log) violations $(grep -o 'runs=[0-9]*' seeds.$p.$s.log | head -1)"
     [ $rc -ne 0 ] && grep "signature\|HARNESS" seeds.$p.$s.log | head -5
